@@ -442,11 +442,13 @@ def run(pid, tier, replay_file=None):
         arg = op["arg"]
         arg_t = tlajson_to_tla(_fixp(arg)) if op["op"] == "putprop" else tlajson_to_tla(arg)
         events.append((eid, '[id |-> %d, op |-> %s, x |-> %s, arg |-> %s, pre |-> %s, post |-> %s, out |-> %s, '
-                            'again |-> %s, fresh |-> %s, freshspec |-> %s, flat |-> %s, flags |-> %s]'
+                            'again |-> %s, fresh |-> %s, freshspec |-> %s, flat |-> %s, flags |-> %s, pure |-> %s]'
                        % (eid, codec.tla_str(op["op"]), codec.tla_str(op["x"]), arg_t, _heap_tla(rec["pre"]),
                           _heap_tla(rec["post"]), _o(rec.get("out")), _o(rec.get("again")), _o(rec.get("fresh")),
                           _o(rec.get("fresh_spec") or rec.get("fresh")), _o(rec.get("flat")),
-                          _flags_tla(rec["flags"]))))
+                          _flags_tla(rec["flags"]),
+                          # the steps before this one were validation calls only
+                          "TRUE" if all(h["op"] == "validate" for h in st["hist"][:-1]) else "FALSE")))
         if op["op"] == "validate" and not rec["flags"].get("snapSame", True) and pid == "C08":
             rep.violation(("C08", "attributes-rewritten", op["x"]),
                           f"validation rewrote attributes of pre-existing objects (deep vars() snapshot differs): {_h(st['hist'])}",
